@@ -131,8 +131,8 @@ impl Prop for C17 {
     }
     fn cases(&self, tier: Tier, build: &str) -> u32 {
         match (tier, build) {
-            (Tier::Quick, "fast") => 300_000,
-            (Tier::Quick, _) => 100_000,
+            (Tier::Quick, "fast") => 900_000,
+            (Tier::Quick, _) => 300_000,
             (Tier::Thorough, "fast") => 6_000_000,
             (Tier::Thorough, _) => 2_000_000,
         }
